@@ -6,6 +6,7 @@
   `CancelWorkflowHandler`'s first commit does.  The ledger is the list of task executions.
 -/
 import Stab.Lemmas.EngineBasic
+import Stab.Lemmas.EngineClaim
 
 namespace Stab.Props.C17
 open Stab Stab.Engine
@@ -20,6 +21,9 @@ theorem canceled_monotone (c : Cfg) (s : State) (op : Op) (h : s.canceled = true
   | cancel => exact applyEff_canceled_mono _ _ h
   | signal i p => exact applyEff_canceled_mono _ _ h
   | sweep => exact applyTxn_canceled_mono _ _ h
+  | nested id inner =>
+    rw [step_nested_of_canceled c s id inner h]
+    simp only [step]; split; exact h; exact deliverRow_canceled_mono c s _ _ _ h
 
 /-- **No task begins executing once the cancel is durable** — one step, every operation
     (deliveries in any order, redeliveries, crashes at any commit, sweeps, signals). -/
@@ -32,6 +36,9 @@ theorem no_exec_after_cancel_step (c : Cfg) (s : State) (op : Op) (h : s.cancele
   | cancel => simp [step]
   | signal i p => simp [step]
   | sweep => simp [step]
+  | nested id inner =>
+    rw [step_nested_of_canceled c s id inner h]
+    simp only [step]; split; rfl; exact deliverRow_ledger_of_canceled c s _ _ _ h
 
 /-- … and therefore along every schedule, of any length. -/
 theorem no_exec_after_cancel (c : Cfg) (s : State) (ops : List Op) (h : s.canceled = true) :
@@ -62,6 +69,28 @@ theorem cancel_stage_cancels (c : Cfg) (s : State) (id i : Nat) (h : (s.stage i)
   simp only [List.mem_map] at hx
   obtain ⟨y, _, rfl⟩ := hx
   split <;> simp_all
+
+/-- **A StartStage that arrives after the cancel is durable starts nothing** (F26 repair): on a NOT_STARTED stage it
+    commits nothing at all — in particular a StartStage overtaking the stage's CancelStage can no longer complete a
+    task-less or disabled stage SUCCEEDED / SKIPPED. -/
+theorem startStage_after_cancel_is_inert (c : Cfg) (s : State) (id i r : Nat)
+    (hc : s.canceled = true) (hn : (s.stage i).status = .notStarted) : hStartStage c s id i r = [] := by
+  simp [hStartStage, hc, hn]
+
+/-- … and a SkipStage that arrives after the cancel is durable skips nothing: a canceled workflow can no longer end
+    SUCCEEDED because its remaining stages were all SKIPPED behind the cancel. -/
+theorem skipStage_after_cancel_is_inert (c : Cfg) (s : State) (id i : Nat) (hc : s.canceled = true) :
+    hSkipStage c s id i = [] := by
+  simp [hSkipStage, hc]
+
+/-- **No stage is claimed (NOT_STARTED → RUNNING) once the cancel is durable**, whatever message is handled. -/
+theorem no_claim_after_cancel (c : Cfg) (s : State) (row : Row) (i : Nat) (e : Eff)
+    (hc : s.canceled = true) (he : e ∈ (handle c s row).1.flatten) : ¬ Claims s i e := by
+  intro hcl
+  obtain ⟨r, hm, _⟩ := only_startStage_claims c s row i e he hcl
+  obtain ⟨new, rfl, hns, _⟩ := hcl
+  have : hStartStage c s row.id i r = [] := startStage_after_cancel_is_inert c s row.id i r hc hns
+  simp [handle, hm, this] at he
 
 -- non-vacuity: a canceled state exists and is reached by an actual run of a one-stage workflow
 def demoStage : StageCfg :=
